@@ -11,7 +11,7 @@ import locale
 import threading
 from contextlib import AbstractContextManager
 from types import TracebackType
-from typing import TYPE_CHECKING, Any, Optional, Union
+from typing import TYPE_CHECKING, Any, Optional, Union, cast
 from urllib.parse import urljoin, urlsplit
 
 from elementpath.exceptions import xpath_error
@@ -89,7 +89,7 @@ class CollationManager(context_class_base):
     """
     lc_collate: Union[None, str, tuple[Optional[str], Optional[str]]]
     fallback: bool = False
-    _current_lc_collate: Optional[str] = None
+    _effective_lc_collate: Union[None, str, tuple[Optional[str], Optional[str]]] = None
 
     def __init__(self,
                  collation: Optional[str],
@@ -142,33 +142,54 @@ class CollationManager(context_class_base):
 
     def __enter__(self) -> 'CollationManager':
         if self.lc_collate is not None:
-            # Only one locale set can be used at a time
-            _locale_collate_lock.acquire()
-            self._current_lc_collate = locale.setlocale(locale.LC_COLLATE, None)
-
-            try:
+            # Only one locale set can be used at a time: probe which locale serves this
+            # collation and restore the previous setting at once. The locale is switched
+            # only around each comparison (see _locale_call), so collation scopes can be
+            # nested or interleaved (generators) without holding the lock in between.
+            with _locale_collate_lock:
+                current = locale.setlocale(locale.LC_COLLATE, None)
                 try:
-                    locale.setlocale(locale.LC_COLLATE, self.lc_collate)
+                    try:
+                        locale.setlocale(locale.LC_COLLATE, self.lc_collate)
+                        self._effective_lc_collate = self.lc_collate
+                    except locale.Error:
+                        if not self.fallback:
+                            raise
+                        locale.setlocale(locale.LC_COLLATE, 'en_US.UTF-8')
+                        self._effective_lc_collate = 'en_US.UTF-8'
                 except locale.Error:
-                    if not self.fallback:
-                        raise
-                    locale.setlocale(locale.LC_COLLATE, 'en_US.UTF-8')
-            except locale.Error:
-                self._current_lc_collate = None
-                _locale_collate_lock.release()
+                    msg = f"Unsupported collation {self.collation!r}"
+                    raise xpath_error('FOCH0002', msg, self.token) from None
+                else:
+                    locale.setlocale(locale.LC_COLLATE, current)
 
-                msg = f"Unsupported collation {self.collation!r}"
-                raise xpath_error('FOCH0002', msg, self.token) from None
+            self.strcoll = self._locale_strcoll
+            self.strxfrm = self._locale_strxfrm
 
         return self
 
     def __exit__(self, exc_type: Optional[type[BaseException]],
                  exc_val: Optional[BaseException],
                  exc_tb: Optional[TracebackType]) -> None:
-        if self._current_lc_collate is not None:
-            locale.setlocale(locale.LC_COLLATE, self._current_lc_collate)
-            self._current_lc_collate = None
-            _locale_collate_lock.release()
+        if self._effective_lc_collate is not None:
+            self._effective_lc_collate = None
+            self.strcoll = locale.strcoll
+            self.strxfrm = locale.strxfrm
+
+    def _locale_call(self, func: Any, *args: str) -> Any:
+        with _locale_collate_lock:
+            current = locale.setlocale(locale.LC_COLLATE, None)
+            locale.setlocale(locale.LC_COLLATE, self._effective_lc_collate)
+            try:
+                return func(*args)
+            finally:
+                locale.setlocale(locale.LC_COLLATE, current)
+
+    def _locale_strcoll(self, s1: str, s2: str) -> int:
+        return cast(int, self._locale_call(locale.strcoll, s1, s2))
+
+    def _locale_strxfrm(self, s: str) -> str:
+        return cast(str, self._locale_call(locale.strxfrm, s))
 
     def eq(self, a: Any, b: Any) -> bool:
         if not isinstance(a, str) or not isinstance(b, str):
